@@ -494,6 +494,12 @@ func runC08(c *CaseCtx) (res CaseResult) {
 			if failed != nil && o2.Err != failed.Err {
 				res.violate("C04", "error-not-verbatim", "redefined function returned another error value than the failing body's", d2)
 			}
+			if failed == nil && !in.W.onceErr(o2.Err) {
+				// the error value of some body although nothing failed in this
+				// call (and it is not a memoized run-once failure): the
+				// failure of an EARLIER call of the redefined function
+				res.violate("C08", "redefined-call-fails/stale-error", "the redefined function returned the error of an earlier call although nothing failed in this one: "+firstLine(errStr(o2.Err)), d2)
+			}
 			continue
 		}
 		if failed != nil {
